@@ -408,7 +408,8 @@ func (mr *msgReader) Read(p []byte) (n int, err error) {
 	defer mr.c.readMu.unlock()
 
 	n, err = mr.limitReader.Read(p)
-	if mr.flate && mr.flateContextTakeover() {
+	if mr.flate && mr.flateContextTakeover() && mr.dict != nil {
+		// mr.dict is nil if the connection was closed while reading.
 		p = p[:n]
 		mr.dict.write(p)
 	}
